@@ -22,18 +22,18 @@ func (r Result) String() string { return [...]string{"unsat", "sat", "unknown"}[
 
 // Solver wraps one long-lived SMT solver process.
 type Solver struct {
-	Kind    string
-	cmd     *exec.Cmd
-	in      io.WriteCloser
-	out     *bufio.Reader
-	defined map[int]bool
-	declV   map[string]bool
-	declF   map[string]bool
-	buf     strings.Builder
-	Stats   *Stats
-	Log     io.Writer
+	Kind      string
+	cmd       *exec.Cmd
+	in        io.WriteCloser
+	out       *bufio.Reader
+	defined   map[int]bool
+	declV     map[string]bool
+	declF     map[string]bool
+	buf       strings.Builder
+	Stats     *Stats
+	Log       io.Writer
 	TimeoutMs int
-	dead    bool
+	dead      bool
 }
 
 type Stats struct {
@@ -318,6 +318,17 @@ func inverseAxioms(c *Ctx, roots []*Term) []*Term {
 }
 
 type Model map[string]*big.Int
+
+// SetTimeout changes the per-query budget (z3 only; cvc5's is fixed at start).
+func (s *Solver) SetTimeout(ms int) {
+	if s.dead || ms <= 0 || ms == s.TimeoutMs {
+		return
+	}
+	if s.Kind == "z3" || s.Kind == "z3-new" {
+		s.send(fmt.Sprintf("(set-option :timeout %d)\n", ms))
+		s.TimeoutMs = ms
+	}
+}
 
 // Check asks whether the conjunction of assertions is satisfiable. If sat and vars is non-empty, the values of vars are returned.
 func (s *Solver) Check(c *Ctx, assertions []*Term, vars []*Term) (Result, Model, error) {
